@@ -423,6 +423,44 @@ func c18(c *core.Ctx) {
 			if core.Slice(txArg)[get[0].Value()] && filterFn == nil {
 				ok = false
 			}
+			// the filter written out inside MineBlock: the list handed to the assembler is built by appends that are all on the
+			// not-existing edge of ExistTx(parentHeader.Hash(), tx)
+			if filterFn == nil && len(core.CallsIn(mine, existTx)) > 0 {
+				var keep []ssa.Instruction
+				direct := false
+				for v := range core.SliceShallow(txArg) {
+					if ci, isCall := v.(*ssa.Call); isCall {
+						if b, isB := ci.Common().Value.(*ssa.Builtin); isB && b.Name() == "append" {
+							keep = append(keep, ci)
+						}
+					}
+				}
+				// the pool's selection itself must not reach the assembler around the appends (through assignments / phis only)
+				var viaPhi func(v ssa.Value, d int) bool
+				viaPhi = func(v ssa.Value, d int) bool {
+					if v == get[0].Value() {
+						return true
+					}
+					if ph, isPhi := v.(*ssa.Phi); isPhi && d < 6 {
+						for _, e := range ph.Edges {
+							if viaPhi(e, d+1) {
+								return true
+							}
+						}
+					}
+					return false
+				}
+				direct = viaPhi(txArg, 0)
+				if len(keep) > 0 && !direct {
+					ok = true
+					heededBefore(c, mine, existTx, core.IsTrue, "append(unpackaged,tx)", keep)
+					ph := c.Method("chain/types.Header", "Hash")
+					for _, g := range core.CallsIn(mine, existTx) {
+						a := g.Common().Args
+						c.Check("MineBlock:ExistTx(parentHeader.Hash(),·)", "value-flow", len(a) == 3 && core.SliceHasCall(core.Slice(a[1]), ph), g.Pos(), "the filter tests against the fork of the parent the block is built on")
+					}
+				}
+			}
 		}
 		c.Check("MineBlock:GetTxs→replay-filter→assembler.MineBlock", "value-flow", ok, mine.Pos(), "the miner packages only what passed a TxGuard.ExistTx filter against its parent")
 		if filterFn != nil {
